@@ -13,16 +13,18 @@ CONSTANTS Lens,          \* body lengths an append may use (>= 1)
           MaxSeg,        \* maxSegmentSize (bytes)
           MaxSize,       \* maxSize (bytes), >= 2*MaxSeg
           MaxOps,        \* bound on history length
-          MaxAppends
+          MaxAppends,
+          MaxTime        \* logical clock bound (0 = no Tick/Purge actions)
 
-VARIABLES segs,      \* sequence of [id, blocks: Seq([n, len]), adv: Nat, cap: Nat]   (on disk + in memory; open queue)
+VARIABLES segs,      \* sequence of [id, blocks: Seq([n, len, at]), adv: Nat, cap: Nat, mt: Nat]  (mt = file mtime, logical)
+          now,       \* logical clock (seconds)
           nextId,    \* next block number (distinguishable payloads)
           total,     \* the SharedCount
           appended,  \* contract: acknowledged appends  (sequence of [n, len])
           nadv,      \* contract: acknowledged advances (number of blocks advanced past)
           hist       \* history for replay: sequence of [a, ..., exp]
 
-vars == <<segs, nextId, total, appended, nadv, hist>>
+vars == <<segs, now, nextId, total, appended, nadv, hist>>
 
 Footer == 8
 RECURSIVE SumLen(_)
@@ -30,7 +32,7 @@ SumLen(bs) == IF bs = <<>> THEN 0 ELSE Head(bs).len + 8 + SumLen(Tail(bs))
 Size(s) == Footer + SumLen(s.blocks)
 Empty(s) == s.adv = Len(s.blocks)
 Full(s) == Size(s) >= s.cap
-NewSeg(id) == [id |-> id, blocks |-> <<>>, adv |-> 0, cap |-> MaxSeg]
+NewSeg(id) == [id |-> id, blocks |-> <<>>, adv |-> 0, cap |-> MaxSeg, mt |-> now]
 RECURSIVE SumSize(_)
 SumSize(ss) == IF ss = <<>> THEN 0 ELSE Size(Head(ss)) + SumSize(Tail(ss))
 MaxSegId == IF segs = <<>> THEN 0 ELSE segs[Len(segs)].id
@@ -50,9 +52,11 @@ DeliveredIsAppendOrder == Pending(segs) = Expected
 CurrentIsOldestUnadvanced ==
     IF Expected = <<>> THEN Current.eof ELSE (~Current.eof /\ Current.n = Expected[1].n)
 
-Obs == [cur |-> Current, nsegs |-> Len(segs), pending |-> [i \in 1..Len(Pending(segs)) |-> Pending(segs)[i].n]]
+Obs == [cur |-> [eof |-> Current.eof, n |-> Current.n, len |-> Current.len], nsegs |-> Len(segs),
+        pending |-> [i \in 1..Len(Pending(segs)) |-> Pending(segs)[i].n]]
 
-Init == /\ segs = <<NewSeg(1)>>
+Init == /\ now = 0
+        /\ segs = <<[id |-> 1, blocks |-> <<>>, adv |-> 0, cap |-> MaxSeg, mt |-> 0]>>
         /\ nextId = 1
         /\ total = 0
         /\ appended = <<>> /\ nadv = 0
@@ -64,18 +68,18 @@ Log(rec) == hist' = Append(hist, rec)
 DoAppend(L) ==
   /\ Len(hist) < MaxOps /\ Len(appended) < MaxAppends
   /\ IF total + L > MaxSize
-     THEN /\ UNCHANGED <<segs, nextId, total, appended, nadv>>
+     THEN /\ UNCHANGED <<segs, now, nextId, total, appended, nadv>>
           /\ Log([a |-> "append", n |-> nextId, len |-> L, err |-> "full", exp |-> Obs])
      ELSE LET tail == segs[Len(segs)]
-              blk  == [n |-> nextId, len |-> L]
+              blk  == [n |-> nextId, len |-> L, at |-> now]
               segs1 == IF Size(tail) > tail.cap
                        THEN Append(segs, [NewSeg(tail.id + 1) EXCEPT !.blocks = <<blk>>])
-                       ELSE [segs EXCEPT ![Len(segs)].blocks = Append(@, blk)]
+                       ELSE [segs EXCEPT ![Len(segs)].blocks = Append(@, blk), ![Len(segs)].mt = now]
           IN /\ segs' = segs1
              /\ nextId' = nextId + 1
              /\ total' = total + L + 8
              /\ appended' = Append(appended, blk)
-             /\ UNCHANGED nadv
+             /\ UNCHANGED <<nadv, now>>
              /\ hist' = Append(hist, [a |-> "append", n |-> nextId, len |-> L, err |-> "ok",
                                       exp |-> [cur |-> (IF Empty(segs1[1]) THEN [eof |-> TRUE, n |-> 0, len |-> 0]
                                                         ELSE [eof |-> FALSE, n |-> segs1[1].blocks[segs1[1].adv + 1].n,
@@ -93,11 +97,11 @@ Trim(ss, tot) ==
 DoAdvance ==
   /\ Len(hist) < MaxOps
   /\ ~Empty(HeadSeg)
-  /\ LET ss1 == [segs EXCEPT ![1].adv = @ + 1]
+  /\ LET ss1 == [segs EXCEPT ![1].adv = @ + 1, ![1].mt = now]
          r   == IF Empty(ss1[1]) THEN Trim(ss1, total) ELSE [segs |-> ss1, total |-> total]
      IN /\ segs' = r.segs /\ total' = r.total
         /\ nadv' = nadv + 1
-        /\ UNCHANGED <<nextId, appended>>
+        /\ UNCHANGED <<nextId, appended, now>>
         /\ hist' = Append(hist, [a |-> "advance", exp |-> [pending |-> [i \in 1..Len(Pending(r.segs)) |-> Pending(r.segs)[i].n],
                                                             nsegs |-> Len(r.segs)]])
 
@@ -107,11 +111,11 @@ DoScan(k) ==
   /\ ~Empty(HeadSeg)
   /\ k \in 1..(Len(HeadSeg.blocks) - HeadSeg.adv)
   /\ LET read == SubSeq(HeadSeg.blocks, HeadSeg.adv + 1, HeadSeg.adv + k)
-         ss1 == [segs EXCEPT ![1].adv = @ + k]
+         ss1 == [segs EXCEPT ![1].adv = @ + k, ![1].mt = now]
          r   == IF Empty(ss1[1]) THEN Trim(ss1, total) ELSE [segs |-> ss1, total |-> total]
      IN /\ segs' = r.segs /\ total' = r.total
         /\ nadv' = nadv + k
-        /\ UNCHANGED <<nextId, appended>>
+        /\ UNCHANGED <<nextId, appended, now>>
         /\ hist' = Append(hist, [a |-> "scan", k |-> k,
                                  exp |-> [read |-> [i \in 1..k |-> read[i].n],
                                           pending |-> [i \in 1..Len(Pending(r.segs)) |-> Pending(r.segs)[i].n],
@@ -126,14 +130,41 @@ NonEmpty(ss) == IF ss = <<>> THEN <<>>
 DoReopen ==
   /\ Len(hist) < MaxOps
   /\ LET kept == NonEmpty(segs)
-         ss1  == IF kept = <<>> THEN <<NewSeg(1)>> ELSE kept
+         ss1  == IF kept = <<>> THEN <<NewSeg(MaxSegId + 1)>> ELSE kept
      IN /\ segs' = ss1
         /\ total' = IF Empty(ss1[1]) THEN 0 ELSE SumSize(ss1)
-        /\ UNCHANGED <<nextId, appended, nadv>>
+        /\ UNCHANGED <<nextId, appended, nadv, now>>
         /\ hist' = Append(hist, [a |-> "reopen", exp |-> [pending |-> [i \in 1..Len(Pending(ss1)) |-> Pending(ss1)[i].n],
                                                            nsegs |-> Len(ss1)]])
 
+\* the clock advances (file mtimes have one-second granularity in PurgeOlderThan)
+DoTick ==
+  /\ Len(hist) < MaxOps /\ now < MaxTime
+  /\ now' = now + 1
+  /\ UNCHANGED <<segs, nextId, total, appended, nadv>>
+  /\ hist' = Append(hist, [a |-> "tick", exp |-> [pending |-> [i \in 1..Len(Pending(segs)) |-> Pending(segs)[i].n], nsegs |-> Len(segs)]])
+
+\* Queue.PurgeOlderThan(c): drop head segments whose mtime is before the cutoff, whatever they still hold
+RECURSIVE PurgeLoop(_, _, _)
+PurgeLoop(ss, tot, c) ==
+  IF ss[1].mt >= c THEN [segs |-> ss, total |-> tot]
+  ELSE LET ss1 == IF Len(ss) = 1 THEN Append(ss, NewSeg(ss[1].id + 1)) ELSE ss
+       IN PurgeLoop(Tail(ss1), tot - Size(ss1[1]), c)
+DoPurge(c) ==
+  /\ Len(hist) < MaxOps /\ c \in 1..now
+  /\ LET r == PurgeLoop(segs, total, c)
+         dropped == Len(Pending(segs)) - Len(Pending(r.segs))
+     IN /\ segs' = r.segs /\ total' = r.total
+        /\ nadv' = nadv + dropped
+        /\ UNCHANGED <<nextId, appended, now>>
+        /\ hist' = Append(hist, [a |-> "purge", c |-> c,
+                                 exp |-> [pending |-> [i \in 1..Len(Pending(r.segs)) |-> Pending(r.segs)[i].n],
+                                          nsegs |-> Len(r.segs),
+                                          mustKeep |-> {appended[i].n : i \in {j \in (nadv + 1)..Len(appended) : appended[j].at >= c}}]])
+
 Next == \/ \E L \in Lens : DoAppend(L)
+        \/ DoTick
+        \/ \E c \in 1..MaxTime : DoPurge(c)
         \/ DoAdvance
         \/ \E k \in 1..3 : DoScan(k)
         \/ DoReopen
@@ -141,11 +172,17 @@ Next == \/ \E L \in Lens : DoAppend(L)
 Spec == Init /\ [][Next]_vars
 
 \* ---- invariants ----
+\* purge only drops a prefix of the pending entries, and never an entry appended at or after the cutoff
+PurgeKeepsYoung ==
+   [][\A c \in 1..MaxTime : DoPurge(c) =>
+        /\ \E d \in 0..Len(Pending(segs)) : Pending(segs') = SubSeq(Pending(segs), d + 1, Len(Pending(segs)))
+        /\ \A i \in 1..Len(Pending(segs)) : Pending(segs)[i].at >= c =>
+               \E j \in 1..Len(Pending(segs')) : Pending(segs')[j].n = Pending(segs)[i].n]_vars
 TypeOK == Len(segs) >= 1   \* (the shared counter can go negative in the code: a fresh queue does not count its first footer)
 RejectedAppendChangesNothing ==
    [][\A L \in Lens : (DoAppend(L) /\ total + L > MaxSize) => UNCHANGED <<segs, appended, nadv>>]_vars
 \* an empty head is only possible when it is the only segment (otherwise consumers would stall)
 NoStall == (Len(segs) > 1) => ~Empty(HeadSeg)
 
-View == <<segs, nextId, total, appended, nadv>>
+View == <<segs, now, nextId, total, appended, nadv>>
 =============================================================================
